@@ -39,6 +39,9 @@ func c19Size(c *Ctx, k int) uint64 {
 	return c.Rng(int64(k), 0xC19).Next()
 }
 
+// c19Reused is one Reader that is Reset onto header after header (its past: every header before).
+var c19Reused *lz4.Reader
+
 func init() {
 	register("C19", &PropDef{
 		Total: func(c *Ctx) int64 { return int64(256*c19NumSizes(c)) + 1 },
@@ -105,6 +108,30 @@ func c19Run(c *Ctx, i int64) {
 			}
 			detail := func() map[string]interface{} {
 				return map[string]interface{}{"header": hexs(hdr), "flg": flg, "bd": bd, "hc": hc, "want_hc": wantHC, "size": size}
+			}
+			if hcOK || hc%16 == 3 {
+				// one Reader reused with Reset for header after header: verdict and Size as from a new Reader
+				var un int
+				var uerr error
+				var usize int
+				if c.Guard("Reader.Read", func() {
+					if c19Reused == nil {
+						c19Reused = lz4.NewReader(bytes.NewReader(hdr))
+					} else {
+						c19Reused.Reset(bytes.NewReader(hdr))
+					}
+					un, uerr = c19Reused.Read(rbuf[:])
+					usize = c19Reused.Size()
+				}) {
+					c19Reused = nil
+					return
+				}
+				c.Count("reused_reader_header_reads", 1)
+				if un != rn || usize != rsize || fmt.Sprint(uerr) != fmt.Sprint(rerr) {
+					if !c.Over("header-verdict-depends-on-reader-history") {
+						c.Violation("header-verdict-depends-on-reader-history", fmt.Sprintf("FLG=%02x BD=%02x HC=%02x: a new Reader gives (%d, %v) Size %d; a Reader reused with Reset gives (%d, %v) Size %d", flg, bd, hc, rn, rerr, rsize, un, uerr, usize), detail())
+					}
+				}
 			}
 			if hcOK {
 				// the same header delivered in fragments (one byte per read; one split at a rotating position):
